@@ -94,7 +94,7 @@ def run(ctx, tier):
             r2.violations.append(Violation('C10', 'C10.arc', b.path, 'difference', pr, loc=b.loc(0), ordinal=o))
     if m < 1:
         r2.violations.append(Violation('C10', 'C10.arc', 'oxmpl', 'floor', 'no SO(2) interpolation found (floor 1)'))
-    return [r, r2, _repr(ctx)]
+    return [r, r2, _repr(ctx)] + _algebra(ctx)
 
 
 def _repr(ctx):
@@ -115,6 +115,15 @@ def _repr(ctx):
             outs = {k: v for k, v in res.items() if k[0] == 'out'}
             vals = set(outs.values())
             ok = len(outs) >= 4 and (vals == {E} or vals == {O})
+            if not ok:
+                # second prover (oxa/symval.py): in every feasible case of the gating comparisons the four stored normal forms
+                # are all unchanged or all negated when the end point is negated
+                from ..symrules import analyze as _an, sign_invariant
+                sv, _n = _an(ctx, b)
+                so = {k[2:]: v for k, v in sv.items() if k[0] == 'out'}
+                if len(so) >= 4 and sign_invariant(so, i) in ('E', 'O', 'EO'):
+                    ok = True
+                    outs = {k: 'E|O (normal forms)' for k in sv if k[0] == 'out'}
             r3.inst('%s: components as functions of the sign of `%s`: %s' % (b.path, b.local_name(i), {'.'.join(map(str, k[2:])): v for k, v in sorted(outs.items())}),
                     ok=ok, site=b.loc(0))
             if not ok:
@@ -144,3 +153,159 @@ def _is_copy_of(ctx, b, local, params):
             return True
         local = src['l']
     return False
+
+
+def _algebra(ctx):
+    """C10.ends / C10.affine / C10.swap - algebraic clauses decided on the normal forms of each `interpolate` body
+    (oxa/symval.py; real-number reading, rounding is outside).
+    ends:   with t pinned to 0 (1) every stored component is `from` (`to`): exactly for vectors, modulo 2 pi for an
+            SO(2) angle, up to one common factor for the four quaternion components (the same rotation);
+    affine: vectors and angles are `A + t * B` with A, B free of t (with `ends` and C10.arc this is constant speed along
+            the shortest arc);
+    swap:   interpolate(b, a, 1 - t) has the same normal form as interpolate(a, b, t), in the same sense, in every
+            feasible case of the comparisons that gate the value.
+    Undecided (no alarm) where the value is not tracked; a violation needs the two forms to differ as functions."""
+    from ..symval import Poly, swap_params, subst, fmt_poly, collect_atoms, has_atom, from_key
+    from ..symrules import analyze, opaque, term_differs, congruent, cases, reduce_mod
+    re_ = RuleResult('C10.ends', 'interpolate(a, b, 0) is a and interpolate(a, b, 1) is b (exactly / modulo 2 pi / as the same rotation)')
+    ra = RuleResult('C10.affine', 'vector and angle interpolation is affine in t')
+    rw = RuleResult('C10.swap', 'interpolate(b, a, 1 - t) denotes the same configuration as interpolate(a, b, t)')
+    n = 0
+    M = 2 * math.pi
+    for b in sorted(ctx.lib_bodies(), key=lambda x: x.path):
+        if b.impl_trait != SS or b.name != 'interpolate' or b.kind != 'AssocFn' or b.arg_count != 5:
+            continue
+        n += 1
+        tys = [b.local_ty(i) for i in range(1, 6)]
+        tpar = [i for i in range(1, 6) if b.local_ty(i) == 'f64']
+        outp = [i for i in range(1, 6) if b.local_ty(i).startswith('&mut ')]
+        ends = [i for i in range(2, 6) if i not in tpar and i not in outp]
+        if len(tpar) != 1 or len(outp) != 1 or len(ends) != 2:
+            continue
+        tp, op, (pa, pb) = tpar[0], outp[0], ends
+        sty = b.local_ty(op)
+        kind = 'angle' if sty.endswith('SO2State') else 'quat' if sty.endswith('SO3State') else 'exact'
+        sym, _ = analyze(ctx, b)
+        outs_t = {k[2:]: v for k, v in sym.items() if k[0] == 'out' and k[1] == op}
+        if not outs_t or any(opaque(v) for v in outs_t.values()):
+            for rr in (re_, ra, rw):
+                rr.inst('%s: undecided - what is stored is not tracked to a closed normal form (delegation is C13.match)' % b.path, ok=True, nontrivial=False)
+            continue
+
+        def same(comp_vals, target_of, what, rule, rr, ordinal):
+            """comp_vals {path: Poly}; target_of(path) -> Poly; compares per `kind` in every feasible case"""
+            ks = sorted(comp_vals, key=repr)
+            polys = [comp_vals[k] for k in ks] + [target_of(k) for k in ks]
+            cs = cases(polys)
+            if cs is None or any(p is None for p in polys):
+                rr.inst('%s %s: undecided - too many gating conditions' % (b.path, what), ok=True, nontrivial=False)
+                return
+            bad = None
+            undec = False
+            for asg, ps in cs:
+                m = len(ks)
+                vs, ts = ps[:m], ps[m:]
+                if any(x is None for x in ps):
+                    undec = True
+                    continue
+                if kind == 'quat' and m == 4:
+                    for i in range(m):
+                        for j in range(i + 1, m):
+                            l, r_ = vs[i] * ts[j], vs[j] * ts[i]
+                            if l is None or r_ is None:
+                                undec = True
+                            elif l != r_:
+                                d = term_differs(l, r_)
+                                if d is True:
+                                    bad = (ks[i], ks[j], l, r_)
+                                else:
+                                    undec = True
+                    continue
+                for i in range(m):
+                    if kind == 'angle':
+                        c = congruent(vs[i], ts[i], M)
+                        if not c:
+                            d = term_differs(vs[i], ts[i], mod=M)
+                            if d is True:
+                                bad = (ks[i], None, vs[i], ts[i])
+                            else:
+                                undec = True
+                    else:
+                        if vs[i] != ts[i]:
+                            d = term_differs(vs[i], ts[i])
+                            if d is True:
+                                bad = (ks[i], None, vs[i], ts[i])
+                            else:
+                                undec = True
+            if bad is not None:
+                rr.inst('%s %s: differs' % (b.path, what), ok=False, site=b.loc(0))
+                rr.violations.append(Violation('C10', rule, b.path, what,
+                                               '%s: component %s is %s where %s is required%s' % (
+                                                   what, '.'.join(map(str, bad[0])), fmt_poly(bad[2])[:260], fmt_poly(bad[3])[:200],
+                                                   ' (compared up to a common factor with component %s)' % '.'.join(map(str, bad[1])) if bad[1] else
+                                                   (' modulo 2 pi' if kind == 'angle' else '')), loc=b.loc(0), ordinal=ordinal))
+            elif undec:
+                rr.inst('%s %s: undecided - forms differ syntactically in some case but not at any evaluation point' % (b.path, what), ok=True, nontrivial=False)
+            else:
+                rr.inst('%s %s: shown in %d feasible case(s) of the gating comparisons (%s)' % (b.path, what, len(cs), kind), ok=True, site=b.loc(0))
+
+        # ---- ends
+        for o, (tv, src, nm) in enumerate(((0.0, pa, 'at t = 0 the result is `%s`' % b.local_name(pa)), (1.0, pb, 'at t = 1 the result is `%s`' % b.local_name(pb)))):
+            res, _ = analyze(ctx, b, {tp: tv})
+            outs = {k[2:]: v for k, v in res.items() if k[0] == 'out' and k[1] == op}
+            if not outs or any(opaque(v) for v in outs.values()) or set(outs) != set(outs_t):
+                re_.inst('%s %s: undecided' % (b.path, nm), ok=True, nontrivial=False)
+                continue
+            same(outs, lambda path, _s=src: Poly.atom(('leaf', _s, path)), nm, 'C10.ends', re_, o)
+        # ---- swap
+        tl = ('leaf', tp, ())
+
+        def flip(a):
+            if a == tl:
+                return Poly.const(1.0) - Poly.atom(tl)
+            return None
+        swapped = {k: subst(swap_params(v, pa, pb), flip) for k, v in outs_t.items()}
+        same(outs_t, lambda path: swapped[path], 'interpolate(b, a, 1 - t) against interpolate(a, b, t)', 'C10.swap', rw, 0)
+        # ---- affine in t
+        if kind in ('angle', 'exact'):
+            for o, (path, v) in enumerate(sorted(outs_t.items(), key=repr)):
+                w = reduce_mod(v, M) if kind == 'angle' else v
+                deg_ok = True
+                for mono, _c in w.m.items():
+                    for a, pw in mono:
+                        if a == tl and pw != 1:
+                            deg_ok = False
+                        if a != tl and has_atom(Poly.atom(a), lambda x: x == tl):
+                            deg_ok = False
+                if deg_ok:
+                    ra.inst('%s component %s is affine in t: %s' % (b.path, '.'.join(map(str, path)), fmt_poly(w)[:140]), ok=True, site=b.loc(0))
+                    continue
+                if _second_difference(w, tl) is not True:
+                    ra.inst('%s component %s: undecided' % (b.path, '.'.join(map(str, path))), ok=True, nontrivial=False)
+                    continue
+                ra.inst('%s component %s is not affine in t' % (b.path, '.'.join(map(str, path))), ok=False, site=b.loc(0))
+                ra.violations.append(Violation('C10', 'C10.affine', b.path, 'affine:' + '.'.join(map(str, path)),
+                                               'the stored value %s is not of the form A + t * B: the motion does not advance at constant speed' % fmt_poly(w)[:300],
+                                               loc=b.loc(0), ordinal=o))
+    if n < 6:
+        re_.violations.append(Violation('C10', 'C10.ends', 'oxmpl', 'floor', 'only %d interpolate functions found (floor 6)' % n))
+    return [re_, ra, rw]
+
+
+def _second_difference(w, tl):
+    """True when the normal form w has a non-zero second difference in t at some evaluation point"""
+    from ..symrules import Env, ev
+    hits = 0
+    for seed in range(30):
+        vals = []
+        try:
+            for t in (0.2, 0.45, 0.7):
+                env = Env(seed)
+                env.vals[(tl, None)] = t
+                vals.append(ev(w, env))
+        except (ValueError, ZeroDivisionError, OverflowError, TypeError):
+            continue
+        d2 = vals[0] - 2 * vals[1] + vals[2]
+        if abs(d2) > 1e-7 * max(1.0, abs(vals[0]), abs(vals[1])):
+            hits += 1
+    return hits >= 3
